@@ -97,7 +97,7 @@ for right in (True, False):
 for ty in ("opt", "f64"):
     for k, nulls in (("first", "Anywhere"), ("last", "TailOrNone"), ("val", "Anywhere")):
         uniq(k, ty, [0, 1, 2], "q", nulls)
-        uniq(k, ty, [5], "q", nulls)
+        uniq(k, ty, [5], "q" if ty == "opt" else "t", nulls)     # f64 at N = 5: thorough (70 s each)
         uniq(k, ty, [3], "t", nulls)
         uniq(k, ty, [4], "t", nulls)
         uniq(k, ty, [6], "t", nulls)
